@@ -27,6 +27,8 @@ CONSTANTS Defects,
 Mutations == {"create_0644", "pass_ignored_on_write", "load_ignores_password", "eq_private", "hash_private",
               "public_drops_type",
               "eq_cert",
+              "clamp_passphrase_on_write",      \* the writer seals with only the first 1023 octets of the passphrase, the
+                                                \* reader derives from all of it (seeded change C36e)
               "kdf_cache_ignores_passphrase"}   \* the bcrypt KDF result is remembered per (salt, rounds, size), not per
                                                 \* passphrase: later loads of that file reuse it (seeded change C36d)     \* __eq__ also compares the certificates when both sides carry one (seeded change C36a)
 ASSUME Defects \subseteq Mutations
@@ -62,8 +64,14 @@ ModeOf(t)  == CASE t = "exists_0600" -> {"ur", "uw"} [] t = "exists_0644" -> {"u
                 [] t = "exists_0666" -> {"ur", "uw", "gr", "gw", "or", "ow"} [] OTHER -> {}
 
 (* ------------------------------ passphrases ------------------------------ *)
-WPass  == {"none", "empty", "ascii", "unicode", "long"}         \* what write_private_key* is given
-LPass  == {"none", "empty", "ascii", "unicode", "long", "wrong"} \* what the loader is given
+\* passphrase LENGTH classes (octets of the UTF-8 encoding) around OpenSSL's PEM limit of 1023: a writer may refuse
+\* a passphrase over the limit (the pinned backend does: ValueError), but a file it does write is sealed with
+\* exactly the passphrase given.  "prefix" / "extension" are wrong passphrases that are a proper prefix of the right
+\* one / start with the right one (only generated against the sized classes).
+SizedPass == {"sized_1", "sized_1022", "sized_1023", "sized_1024", "sized_4096"}
+OverLimit == {"sized_1024", "sized_4096"}
+WPass  == {"none", "empty", "ascii", "unicode", "long"} \cup SizedPass         \* what write_private_key* is given
+LPass  == {"none", "empty", "ascii", "unicode", "long", "wrong"} \cup SizedPass \cup {"prefix", "extension"}
 Routes == {"filename", "file_obj", "from_path"}
 Empty      == [type |-> "-", mat |-> "-", enc |-> "-"]           \* a zero-length file
 Sealed(t, m, e) == [type |-> t, mat |-> m, enc |-> e]
@@ -133,16 +141,25 @@ W_OpenCreate ==
 W_Serialize(p) ==
   /\ pc = "opened" /\ pc' = "written"
   /\ p \in WPass /\ wpass' = p
-  /\ IF p = "empty"
-     THEN wres' = "refused" /\ fs' = (IF target = "file_obj" THEN fs ELSE [fs EXCEPT !.content = Empty])
-     ELSE /\ wres' = "ok"
-          /\ fs' = [fs EXCEPT !.exists = TRUE,
-                              !.content = Sealed(ktype, "k1", IF "pass_ignored_on_write" \in Defects THEN "none" ELSE p)]
+  \* (the sized classes are crossed with the passphrase relation and the loader route, not with every target / type)
+  /\ (p \in SizedPass => (target \in {"absent", "file_obj"} /\ umask = "022" /\ ktype \in {"rsa", "ecdsa256"}))
+  /\ \/ /\ (p = "empty" \/ (p \in OverLimit /\ "clamp_passphrase_on_write" \notin Defects))     \* the writer may refuse
+        /\ wres' = "refused" /\ fs' = (IF target = "file_obj" THEN fs ELSE [fs EXCEPT !.content = Empty])
+     \/ /\ p # "empty"
+        /\ wres' = "ok"
+        /\ fs' = [fs EXCEPT !.exists = TRUE,
+                            !.content = Sealed(ktype, "k1",
+                                               IF "pass_ignored_on_write" \in Defects THEN "none"
+                                               ELSE IF p \in OverLimit /\ "clamp_passphrase_on_write" \in Defects THEN "prefix"
+                                               ELSE p)]
   /\ UNCHANGED <<ktype, target, umask, lpass, route, lres, lkey, cvars, mode, hvars>>
 L_Load(lp, rt) ==
   /\ pc = "written" /\ pc' = "done"
   /\ lp \in LPass /\ rt \in Routes
   /\ (target = "file_obj" => rt = "file_obj")
+  /\ (lp \in SizedPass => lp = wpass)
+  /\ (lp \in {"prefix", "extension"} => wpass \in SizedPass)
+  /\ (wpass \in SizedPass => lp \in {"none", wpass, "wrong", "prefix", "extension"})
   /\ lpass' = lp /\ route' = rt
   /\ \E o \in LoadOutcomes(fs.content, lp) :
         /\ lres' = o
@@ -211,6 +228,7 @@ PrivateWhenCreated == fs.created => fs.mode \cap GroupOther = {}
 RoundTrip  == (FileDone /\ wres = "ok" /\ lpass = wpass) => (lres = "ok" /\ lkey = "equal_private")
 \* "if written with a passphrase, cannot be loaded without it or with a wrong one"
 PassNeeded == (FileDone /\ wres = "ok" /\ wpass # "none" /\ lpass # wpass) => lres # "ok"
+SealSound  == RoundTrip /\ PassNeeded
 \* whatever does load is the key that was written
 NoOtherKey == (FileDone /\ lres = "ok") => lkey = "equal_private"
 \* "Key equality and hashing depend only on the public key material";
